@@ -354,7 +354,7 @@ impl Ctx {
             "wall_s": (wall * 1000.0).round() / 1000.0,
             "violations": i.violations,
         });
-        if !self.replay_mode {
+        if !self.replay_mode && std::env::var("VH_NO_EVIDENCE").is_err() {
             let dir = verif_dir().join("evidence");
             let _ = std::fs::create_dir_all(&dir);
             let path = dir.join(format!("{}.json", self.id));
